@@ -501,6 +501,11 @@ def m_str_find(ex, d, args, kwargs, st, sink, node):
     yield st, mk_int(z3.IndexOf(d.recv.v, sub.v, 0))
 
 
+def m_str_rfind(ex, d, args, kwargs, st, sink, node):
+    (sub,) = args
+    yield st, mk_int(z3.LastIndexOf(d.recv.v, sub.v))
+
+
 def m_str_startswith(ex, d, args, kwargs, st, sink, node):
     (p,) = args
     if p.ty.kind == "tuple":
@@ -655,7 +660,7 @@ for _n in ("builtins.set", "struct.pack", "struct.unpack", "struct.calcsize", "b
 
 
 # the number of positional arguments each model understands: a call with more (str.find(sub, start), list.pop(i, ...)) is outside the model
-METHOD_MAX_ARGS = {("seq", "append"): 1, ("seq", "pop"): 1, ("seq", "remove"): 1, ("str", "find"): 1, ("bytes", "find"): 1, ("str", "startswith"): 1, ("bytes", "startswith"): 1,
+METHOD_MAX_ARGS = {("seq", "append"): 1, ("seq", "pop"): 1, ("seq", "remove"): 1, ("str", "find"): 1, ("bytes", "find"): 1, ("str", "rfind"): 1, ("bytes", "rfind"): 1, ("str", "startswith"): 1, ("bytes", "startswith"): 1,
                    ("str", "endswith"): 1, ("str", "encode"): 2, ("bytes", "decode"): 2, ("str", "rstrip"): 1, ("bytes", "join"): 1, ("str", "join"): 1, ("map", "get"): 2, ("map", "pop"): 2,
                    ("set", "add"): 1, ("set", "remove"): 1}
 
@@ -665,6 +670,8 @@ METHODS = {
     ("seq", "remove"): m_seq_remove,
     ("str", "find"): m_str_find,
     ("bytes", "find"): m_str_find,
+    ("str", "rfind"): m_str_rfind,
+    ("bytes", "rfind"): m_str_rfind,
     ("str", "startswith"): m_str_startswith,
     ("bytes", "startswith"): m_str_startswith,
     ("str", "endswith"): m_str_endswith,
